@@ -21,6 +21,12 @@ def run(tier):
                        {"tlc_invariant": r.violated, "family": fam, "output": r.out[-6000:]})
         vd.notes.setdefault("model_checked", {})[fam] = {"weight": w, "states": r.distinct,
                                                          "transitions": r.states, "depth": r.depth}
+    # non-vacuity of the model check: an op_merge that keeps its branch cursor across a drain breaks it
+    import tlc
+    nv = tlc.run_tlc("Engine", constants={"PinnedMerge": False, "EFamily": "refeed", "EMaxW": 2}, spec="Spec",
+                     invariants=engine.ENGINE_INVARIANTS, workers=8, timeout=900, heap="8g", overrides={"MergeNoRewind": "Yes"})
+    if not nv.violated:
+        raise common.ToolError("Engine.tla: the MergeNoRewind mutant is not caught\n" + nv.out[-1500:])
     for fam, w in fams:
         vecs, st = engine.generate(fam, w, 16, wd)
         total += len(vecs)
